@@ -55,6 +55,7 @@ def random_case(rng, n=None, with_dev=None, target=None, allow_nan=True, degener
     def maybe_nan(vals, p):
         return [np.nan if (allow_nan and rng.random() < p) else v for v in vals]
     arche = rng.sample(['q_disc', 'q_cont', 'c_cat', 'c_num', 'o_ord', 'q_spike'], rng.choice([2, 3, 3, 4]))
+    if variants and rng.random() < 0.5 and 'c_cat' in arche: arche = arche + ['c_cat2']          # a second categorical feature sharing its modality names with the first
     if degenerate: arche = arche[:2] + [rng.choice(['q_const', 'q_allnan', 'o_many', 'c_id', 'q_unique', 'c_const', 'q_two'])]
     for a in arche:
         pn = rng.choice([0, 0, 0.08, 0.2])
@@ -67,6 +68,8 @@ def random_case(rng, n=None, with_dev=None, target=None, allow_nan=True, degener
         elif a == 'c_cat':
             k = rng.choice([3, 4, 5]); w = [rng.random() ** 2 + 0.05 for _ in range(k)]
             cols[a] = maybe_nan([NAMES[min(k - 1, int(l * k + rng.random() * 1.2))] if rng.random() < 0.8 else rng.choices(NAMES[:k], w)[0] for l in latent], pn); qualitative.append(a)
+        elif a == 'c_cat2':
+            k = rng.choice([4, 5, 6]); cols[a] = maybe_nan([NAMES[(int(l * 3 + rng.random() * 1.5) + i) % k] for i, l in enumerate(latent)], pn); qualitative.append(a)
         elif a == 'c_num':
             pool = [1, 2.0, '3', 4.5, 'x']; k = rng.choice([3, 4, 5])
             cols[a] = maybe_nan([pool[min(k - 1, int(l * k + rng.random()))] for l in latent], pn); qualitative.append(a)
